@@ -7,7 +7,7 @@ import numpy as np
 from common import driver, proof_stage
 import subgen
 
-MODULES = ["CobyqaVerif.Props.C15"]
+MODULES = ["CobyqaVerif.Props.C15", "CobyqaVerif.Props.C15Loop"]
 LEVEL = "proof"
 OWN = ("bounds", "radius", "inequality", "null-space")
 
@@ -33,6 +33,74 @@ def run_calls(chk, rng, replay, n_quick, n_thorough):
         reqs.append(subgen.request(c, s))
     ans = driver(reqs) if reqs else []
     return cases, out, ans, crashed
+
+
+def tcg_correspondence(rng, n_gen, nmax=4):
+    """Tie of lean/CobyqaVerif/Alg/Tcg.lean (the loop the theorems of Props/C15Loop.lean are about) to the code: the
+    model is run in exact rational arithmetic (DriverAlg `tcg`) on the inputs given to the real
+    tangential_byrd_omojokun with improve_tcg=False; the two steps must agree to 1e-6 relative.  Exact rational
+    conjugate gradients cost exponentially in the number of passes: n <= 4, and cases the driver cannot finish in
+    time are counted as skipped."""
+    import subprocess
+    import warnings
+    from fractions import Fraction as Fr
+    import exact
+    from common import LEAN
+    import cobyqa.subsolvers as S
+    cases = [c for c in (subgen.gen(rng, "tangential") for _ in range(n_gen)) if c["n"] <= nmax]
+
+    def rl(v):
+        return " ".join(exact.rs(Fr(float(x))) for x in v)
+
+    def ol(v):
+        return " ".join("none" if not np.isfinite(x) else exact.rs(Fr(float(x))) for x in v)
+
+    def line(c):
+        n = c["n"]
+        xl, xu = np.minimum(c["xl"], 0.0), np.maximum(c["xu"], 0.0)
+        return f"tcg {n} {4 * n + 8} | {rl(c['g'])} ; {rl(c['H'].ravel())} ; {ol(xl)} ; {ol(xu)} ; {exact.rs(Fr(float(c['delta'])))}"
+
+    def run(ls, to):
+        p = subprocess.Popen(["lake", "env", "lean", "--run", "DriverAlg.lean"], cwd=LEAN, stdin=subprocess.PIPE, stdout=subprocess.PIPE,
+                             stderr=subprocess.DEVNULL, text=True, start_new_session=True)
+        try:
+            out, _ = p.communicate("\n".join(ls) + "\n", timeout=to)
+        except subprocess.TimeoutExpired:
+            import os
+            import signal
+            os.killpg(p.pid, signal.SIGKILL)
+            p.wait()
+            return None
+        r = [l for l in out.splitlines() if l.startswith(("ok", "bad", "fail"))]
+        return r if len(r) == len(ls) else None
+    ans = []
+    for i in range(0, len(cases), 40):
+        chunk = cases[i:i + 40]
+        r = run([line(c) for c in chunk], 60)
+        if r is None:
+            r = []
+            for c in chunk:
+                x = run([line(c)], 12)
+                r.append(x[0] if x else None)
+        ans += r
+    agree, skipped, mism = 0, 0, []
+    for c, a in zip(cases, ans):
+        if a is None:
+            skipped += 1
+            continue
+        with warnings.catch_warnings(), np.errstate(all="ignore"):
+            warnings.simplefilter("ignore")
+            s = S.tangential_byrd_omojokun(c["g"], lambda v: c["H"] @ v, c["xl"].copy(), c["xu"].copy(), c["delta"], False, improve_tcg=False)
+        if not a.startswith("ok"):
+            mism.append((c, "driver answered " + a[:40]))
+            continue
+        m = np.array([float(Fr(t)) for t in a.split()[1:]])
+        sc = max(float(np.linalg.norm(s)), float(np.linalg.norm(m)), 1e-300)
+        if float(np.linalg.norm(m - s)) <= 1e-6 * sc:
+            agree += 1
+        else:
+            mism.append((c, f"exact model step {m.tolist()} vs implementation {np.asarray(s).tolist()}"))
+    return {"cases": len(cases), "agree": agree, "skipped_too_expensive": skipped, "mismatches": len(mism)}, mism
 
 
 def stats(out):
@@ -68,6 +136,8 @@ def run(chk, rng, replay=None):
         "calls_by_solver": per_kind, "degeneracies_hit": stats(out), "largest_norm_over_radius": ratio,
         "solver_crashes": len(crashed), "predicate_failures": len(fails),
     })
+    tstat, tmism = tcg_correspondence(rng, 150 if chk.tier == "quick" else 3000) if replay is None else ({}, [])
+    chk.coverage["loop_model_correspondence_tangential_first_phase"] = tstat
     chk.assumptions += ["kernel theorems are exact-arithmetic; the working-set / QR / rotation loops of the solvers are not modelled and are covered by the sampled calls only",
                         "allowances for the linear constraints are proportional to eps n (|A||s| + |b|) (factor 1e3); bounds are checked exactly, the radius with relative slack 1e-12"]
     for c, what in crashed[:3]:
@@ -77,6 +147,10 @@ def run(chk, rng, replay=None):
         chk.violation({"property": "C15", "kind": "spec-fails-on-implementation", "case": subgen.case_json(c), "step": [float(v) for v in s], "failure": a[5:],
                        "explain": "call the solver named in case['kind'] with these arguments (harness/subgen.py call); the returned step violates the named clause of admissibility, evaluated exactly",
                        "signature": {"failure": a[5:], "solver": c["kind"]}})
+    if not fails and not crashed and tmism:
+        c, what = tmism[0]
+        chk.violation({"property": "C15", "kind": "proof-or-correspondence-broken", "correspondence": "Alg/Tcg.lean (exact) vs tangential_byrd_omojokun(improve_tcg=False)",
+                       "case": subgen.case_json(c), "difference": what, "mismatches": len(tmism)}, no_input=True)
     if not fails and not crashed and (not ok or other):
         rep = {"property": "C15", "kind": "proof-or-correspondence-broken", "broken": info.get("problems") if not ok else [a for _, _, a in other[:3]]}
         chk.violation(rep, no_input=True)
